@@ -84,9 +84,9 @@ func planOf(thorough bool) plan {
 			types: 400, primRounds: 6, segments: 200, compress: 200, random: 80, large: 13,
 			dcBlocks: 80, dcBlock: 8, dcDepth: 4, mismatch: 12, mismatchPool: 32, resource: 120}
 	}
-	return plan{pairEvery: 5, frameDraws: 1, shapeBlocks: 2, shapeEvery: 37, shapeFields: 12, compDraws: 1, compEvery: 6, crossDraws: 1,
-		types: 40, primRounds: 1, segments: 20, compress: 20, random: 8, large: 13,
-		dcBlocks: 12, dcBlock: 8, dcDepth: 3, mismatch: 2, mismatchPool: 24, resource: 30}
+	return plan{pairEvery: 5, frameDraws: 1, shapeBlocks: 2, shapeEvery: 61, shapeFields: 12, compDraws: 1, compEvery: 6, crossDraws: 1,
+		types: 40, primRounds: 1, segments: 18, compress: 20, random: 6, large: 13,
+		dcBlocks: 10, dcBlock: 8, dcDepth: 3, mismatch: 2, mismatchPool: 20, resource: 12}
 }
 
 func buildUnits(seed int64, thorough bool) []unit {
